@@ -322,6 +322,23 @@ def extra_phase(tier, master, facts, src, log):
     case = {"property": PROP, "seed": gen.case_seed(master, PROP + "-walk", 0), "index": 10**9, "mode": "walk_packages", "host": dict(gen.BASE_HOST),
             "world": None, "opts": {"country": "us"}}
     outs = engine.run_cases(PROP, [case], src=src)
+    # every input-fault *kind* once under the monitors (error and fallback paths are where code that breaks this property lives):
+    # the kind sweep of C12 on one fixed-shape world per entry-point family, executed in input_fault mode
+    from .c12 import _kind_sweep_cases  # pylint: disable=import-outside-toplevel
+
+    sweep = []
+    for k, c12case in enumerate(_kind_sweep_cases(master, tree.all_facts(src or runner.DEFAULT_SRC))):
+        for j, f in enumerate(c12case["faults"]):
+            if f["class"] not in ("config", "storage", "cmdline") and c12case["opts"]["country"] != "us":
+                continue  # row-level and table-level kinds on the first world only; config / storage / command-line kinds on all four
+            sweep.append({"property": PROP, "seed": c12case["seed"], "index": 2 * 10**9 + k * 1000 + j, "mode": "input_fault", "fault": f, "world": c12case["world"],
+                          "opts": c12case["opts"], "host": dict(gen.BASE_HOST), "prestate": [], "swarm": c12case["swarm"], "strace": (k + j) % 5 == 0})
+    sweep_outs = engine.run_cases(PROP, sweep, src=src)
+    for o in sweep_outs:
+        if "stats" in o:
+            o["stats"]["input_fault_kind_sweep_runs"] = o["stats"].get("runs", 0)
+    outs += sweep_outs
+    log("C18 input-fault kind sweep: %d runs under the monitors" % len(sweep))
     files, hits = static_lint(src or runner.DEFAULT_SRC)
     lint_violations = [{"cls": "static-network-import", "site": "%s:%s" % (f, m), "detail": "source file imports a networking module"} for f, m in hits]
     if lint_violations:
